@@ -488,7 +488,11 @@ package eval
 //@   ensures  @C04 mono:: missmono()
 //@   onpanic ensures regs:: regsame()
 //@   ensures  capacity:: implies(result2 == nil, result0 != nil && 0 <= result0.numReg && result0.numReg <= 8)
-//@   property C05 C10 C04
+// C01 (scoping of calls): parameters, the variadic array .. and the function's own name are created in the scope of the
+// call, never written through to a caller's scope (a recursive call is parented on its caller's scope).
+//@   precall SetNoChecks requires @C01 ownscope:: arg3
+//@   precall CreateOrSet requires @C01 ownscopeparam:: arg3
+//@   property C05 C10 C04 C01
 
 //@ func (*State).evalForInteger
 //@   requires s != nil && s.env != nil
